@@ -306,6 +306,14 @@ def build(spec, ctx, names=None):
 
 
 def own_state(b):
+    """private state of a stock behaviour / decorator; a changed library may hold anything there: never raise"""
+    try:
+        return _own_state(b)
+    except Exception as e:
+        return "x!" + type(e).__name__
+
+
+def _own_state(b):
     D = py_trees.decorators
     B = py_trees.behaviours
     if isinstance(b, D.Retry):
@@ -545,8 +553,20 @@ def _mtick(self, toks):
     v = "V %s | %s | %s" % ((pairs(sn.visited), pairs(sn.previously_visited), "1" if sn.changed else "0")
                            if sn is not None else ("?", "?", "?"))
     q = "Q " + " ".join(ctx.mseq)
+    # the blackboard part of the snapshot record, next to what the ticked behaviours' clients really hold (B / BX:
+    # implementation-only lines for the oracle)
+    extra = []
+    if sn is not None:
+        ticked = [int(x[1:].split(":")[0]) for x in ctx.mseq if x[0] == "z"]
+        keys, cids = set(), set()
+        for nid in ticked:
+            for bc in ctx.by_id[nid].blackboards:
+                cids.add(bc.id())
+                keys |= set(bc.read) | set(bc.write) | set(bc.exclusive)
+        extra = ["B %d %s" % (len(sn.visited_blackboard_client_ids), ",".join(sorted(sn.visited_blackboard_keys))),
+                 "BX %d %s" % (len(cids), ",".join(sorted(keys)))]
     ctx.mseq = None
-    return ["L " + " ".join(self.mlog), "K %d" % self.tree.count, v, q] + report(self.root, ctx)
+    return ["L " + " ".join(self.mlog), "K %d" % self.tree.count, v, q] + extra + report(self.root, ctx)
 
 
 def _setup_shutdown(self, op):
